@@ -217,11 +217,17 @@ fn gather_race(cfg: &[u8], attempts: usize) -> Result<(), (String, String)> {
 /// name and of a label name, through `Desc::new`.
 fn scan_cell(u: u32, variant: u8) -> Result<(), (String, String)> {
     let Some(c) = char::from_u32(u) else { return Ok(()) };
-    let (name, is_label) = match variant % 4 {
+    // (variants 4-7: the character inside a long run of lower-case letters and underscores, in the first and in the second
+    // eight-byte block - where word-at-a-time "fast paths" for the common snake_case name do their work)
+    let (name, is_label) = match variant % 8 {
         0 => (format!("{}ab", c), false),
         1 => (format!("a{}b", c), false),
         2 => (format!("{}ab", c), true),
-        _ => (format!("a{}b", c), true),
+        3 => (format!("a{}b", c), true),
+        4 => (format!("abc{}defgh_ijk", c), false),
+        5 => (format!("abc{}defgh_ijk", c), true),
+        6 => (format!("abcdefgh_jk{}lmnopqrs", c), false),
+        _ => (format!("abcdefgh_jk{}lmnopqrs", c), true),
     };
     let (r, want) = if is_label {
         (Desc::new("m".into(), "h".into(), vec![name.clone()], HashMap::new()), label_name_ok(&name))
@@ -234,7 +240,7 @@ fn scan_cell(u: u32, variant: u8) -> Result<(), (String, String)> {
         } else {
             "valid-metric-rejected"
         };
-        return Err((sig.to_string(), format!("Desc::new with {} {:?} (U+{:04X} {}) returned {} but the statement requires {}", if is_label { "label name" } else { "metric name" }, name, u, if variant % 2 == 0 { "leading" } else { "non-leading" }, if r.is_ok() { "Ok" } else { "Err" }, if want { "Ok" } else { "Err" })));
+        return Err((sig.to_string(), format!("Desc::new with {} {:?} (U+{:04X} {}) returned {} but the statement requires {}", if is_label { "label name" } else { "metric name" }, name, u, if variant % 8 >= 4 { "inside a long snake_case name" } else if variant % 2 == 0 { "leading" } else { "non-leading" }, if r.is_ok() { "Ok" } else { "Err" }, if want { "Ok" } else { "Err" })));
     }
     Ok(())
 }
@@ -245,7 +251,8 @@ impl Property for C09 {
     }
     fn post(&self, _tier: Tier, _seed: u64, stats: &mut crate::engine::Stats) -> Result<(), (String, String, Vec<u8>)> {
         // exhaustive over a finite sub-space: every Unicode scalar value as leading and as non-leading
-        // character of a metric name and of a label name (4 x 1 112 064 constructor calls)
+        // character of a short metric name and label name, and inside a long snake_case name in its first and second eight-byte
+        // block (8 x 1 112 064 constructor calls)
         let found: std::sync::Mutex<Option<(String, String, Vec<u8>)>> = std::sync::Mutex::new(None);
         let cells = std::sync::atomic::AtomicU64::new(0);
         std::thread::scope(|s| {
@@ -256,7 +263,7 @@ impl Property for C09 {
                     let mut n = 0u64;
                     let mut u = k;
                     while u < 0x11_0000 {
-                        for variant in 0..4u8 {
+                        for variant in 0..8u8 {
                             n += 1;
                             if let Err((sig, d)) = scan_cell(u, variant) {
                                 let mut f = found.lock().unwrap();
